@@ -7,6 +7,7 @@ from corr import pdulib as L
 
 ID = 'C03'
 TARGETS = ['SmppVerif.Props.C03']
+THOROUGH_ROUNDS = 2
 RULE = ('generated messages of all 15 classes over the field space (boundary integers, C-octet strings at 0/1/max length, '
         'every TON/NPI/status member, optional parameters of every kind in random number and order, texts per data coding at '
         'lengths around 0/160/254/255/300, message_payload, schedule/validity times, every default-alphabet configuration of '
